@@ -251,7 +251,9 @@ def _get_subcircuits(
 
             if oper_type != 'NOT':
                 circuit_size += 1
-            is_output: bool = node in outputs_set
+            # a gate nobody reads is not in the cone of any other output: it has
+            # to survive the replacement, so it is an output of the subcircuit too
+            is_output: bool = node in outputs_set or not users
             if not is_output:
                 for user in users:
                     if user not in cut_nodes[cut]:
